@@ -63,6 +63,12 @@ JudgeOk(r) ==
   IF modified /\ ~r.swc_out_ok THEN
     /\ \A p \in {"C01", "C02", "C03", "C04", "C05", "C06", "C07", "C12", "C15"} : Verdict(r.rid, p, "na", "output does not parse, see C08")
     /\ Verdict(r.rid, "C08", "reject", "the rewriter's own parser rejects the output")
+  ELSE IF modified /\ r.in_mentions_ns THEN
+    \* the input itself calls into the hook namespace (hand-written, or a file rewritten before): its own calls cannot
+    \* be told from injected ones, so only the properties that do not count or erase hook calls are decided
+    /\ \A p \in {"C01", "C02", "C03", "C04", "C05", "C06", "C12", "C15"} : Verdict(r.rid, p, "na", "the input mentions the hook namespace")
+    /\ IF DirList(rin) = DirList(rout) THEN Verdict(r.rid, "C07", "ok0", "directives") ELSE Verdict(r.rid, "C07", "reject", <<"directive prologues differ", DirList(rin), DirList(rout)>>)
+    /\ J08(r, modified, {})
   ELSE IF clash # {} THEN
     \* the input itself uses a name the output declares as a temporary: injected names cannot be
     \* told apart structurally, so only C06 (which is about exactly this) is decided
